@@ -93,15 +93,7 @@ def eventsOf (l : ImplLayout) (id : Nat) : List Event :=
 /-- the spec's meaning of a command list against the events recorded for it -/
 def judgeTrack (cmds : List Cmd) (evs : List Event) : Option String :=
   let exp := MmlMeaning.meaning cmds
-  if !exp.exact then none else
-  let notes := evs.filter (·.type == Tables.ev_NOTE)
-  match judgeItems exp.items notes 0 with
-  | some f => some f
-  | none =>
-    let total : Int := evs.foldl (fun a e => a + e.on + e.off) 0
-    if total != exp.total then some s!"fail total want {exp.total} got {total}" else
-    let ctl := (evs.filter fun e => e.type != Tables.ev_NOTE && e.type != Tables.ev_REST && e.type != Tables.ev_TIE).map fun e => (e.type, e.param)
-    if ctl != exp.controls then some "fail controls" else none
+  if !exp.exact then none else judgeExpected exp evs
 
 def firstSome {α β} (l : List α) (f : α → Option β) : Option β := l.findSome? f
 
